@@ -1,0 +1,5 @@
+//go:build !verif
+
+package graph
+
+func verifYield(site string) {}
